@@ -19,6 +19,6 @@ if [ -z "$SKIP_SUITE" ]; then
   rm -rf "$WT/.cache"
 fi
 cp -r /verif/lean "$LEAN"
-cd /verif && VERIF_REPO="$WT" VERIF_LEAN_DIR="$LEAN" ./check "$ID" --tier "$TIER" 2>&1 | grep -E "VIOLATION|KNOWN-FINDING|^\[$ID\]|INFRA" 
+mkdir -p "$LEAN/.evidence"; cd /verif && VERIF_EVIDENCE_DIR="$LEAN/.evidence" VERIF_REPO="$WT" VERIF_LEAN_DIR="$LEAN" ./check "$ID" --tier "$TIER" 2>&1 | grep -E "VIOLATION|KNOWN-FINDING|^\[$ID\]|INFRA" 
 echo "check exit: $?"
 rm -f /tmp/seedtest-demo-$$.log
